@@ -124,6 +124,7 @@ static int svc_counter = 0;
 static long mrets[64];
 static int n_mrets = 0, i_mrets = 0;
 static int in_ctl = 0;
+static int quiet_cb = 0;       /* teardown: the server may still deliver queued requests; not part of the script */
 static int n_accept = 0, n_created = 0, n_msgproc = 0;
 /* raw (hostile) handshake peers: server-side connection objects that came out of a raw handshake */
 #define RAWMAX 16
@@ -131,6 +132,11 @@ static int rawfd[RAWMAX];
 static int nraw = 0;
 static int cur_raw = -1;                        /* raw peer whose bytes the server is looking at (hs/hh/hx ops) */
 static qb_ipcs_connection_t *raw_conn[RAWMAX];
+/* the first bytes each raw peer has written: the lab refuses to deliver a stream that would make the server allocate
+ * an absurd amount of shared memory (a valid request asking for more than LAB_MAX_REQ bytes per channel) */
+#define LAB_MAX_REQ (4u << 20)
+static unsigned char raw_head[RAWMAX][sizeof(struct qb_ipc_connection_request)];
+static size_t raw_headlen[RAWMAX];
 static int n_rcreated = 0, n_rclosed = 0, n_rdestroyed = 0;
 
 #define MAXTAG 65536
@@ -291,8 +297,10 @@ static int32_t cb_msg(qb_ipcs_connection_t *c, void *data, size_t size)
 	/* never trust `size' when looking at the bytes: the real length is harness bookkeeping */
 	memcpy(&t32, (unsigned char *)data + 4, 4);
 	real = (t32 >= 0 && t32 < MAXTAG) ? tag_len[t32] : HDR;
+	/* content check over the bytes that are certainly there: a datagram is cut at the header's size field */
+	if (size < (size_t)real) real = (size < HDR) ? HDR : (long)size;
 	describe(data, real, d, sizeof d);
-	printf("M %zu %s\n", size, d);
+	if (!quiet_cb) printf("M %zu %s\n", size, d);
 	if (i_mrets < n_mrets) return (int32_t)mrets[i_mrets++];
 	return 0;
 }
@@ -433,6 +441,7 @@ static void teardown(void)
 {
 	int i, guard;
 	env_log = 0;
+	quiet_cb = 1;
 	for (i = 0; i < nraw; i++) if (rawfd[i] >= 0) { close(rawfd[i]); rawfd[i] = -1; }
 	nraw = 0;
 	cur_raw = -1;
@@ -453,6 +462,7 @@ static void teardown(void)
 	memset(inj_left, 0, sizeof inj_left);
 	n_mrets = i_mrets = 0;
 	negotiated = 0;
+	quiet_cb = 0;
 }
 
 static int fds_at_start = -1;
@@ -691,9 +701,26 @@ int main(void)
 				int fd = (nraw < RAWMAX) ? raw_connect() : -ENFILE;
 				if (fd < 0) { printf("r %d\n", fd); continue; }
 				k = nraw;
+				raw_headlen[k] = 0;
 				rawfd[nraw++] = fd;
 			}
 			if (k < 0 || k >= nraw || rawfd[k] < 0) { printf("r -9\n"); continue; }
+			{
+				unsigned char head[sizeof rq];
+				size_t hl = raw_headlen[k], j;
+				struct qb_ipc_connection_request q;
+				memcpy(head, raw_head[k], hl);
+				for (j = 0; j < (size_t)n && hl < sizeof head; j++) head[hl++] = bytes[j];
+				if (hl == sizeof head) {
+					memcpy(&q, head, sizeof q);
+					if (q.hdr.id == QB_IPC_MSG_AUTHENTICATE && q.max_msg_size > LAB_MAX_REQ && raw_headlen[k] < sizeof head) {
+						printf("r -7\n");      /* refused by the lab, nothing written */
+						continue;
+					}
+				}
+				memcpy(raw_head[k], head, hl);
+				raw_headlen[k] = hl;
+			}
 			/* the bytes the raw peer writes: input of the model */
 			printf("hb %ld ", k);
 			for (i = 0; i < n; i++) printf("%02x", bytes[i]);
